@@ -250,11 +250,81 @@ package blockstore
 //@   ensures[result_of_the_inner_put] err == res("invoke:Blockstore.Put#0", 0)
 //@   site[records_the_multihash_after_the_put] call:AddTS : arg1 == cidHash(blockCid(bl)) && res("invoke:Blockstore.Put#0", 0) == nil
 //@   site[stores_the_block] invoke:Blockstore.Put : arg0 == b.blockstore && arg2 == bl
+// a Rebuild may swap the filter while the block is being written: the key must go into the filter that is
+// current once the write has returned, so the filter pointer is read after the write, never before it
+//@   site[filter_read_after_the_write] call:Load : called("invoke:Blockstore.Put#0") && res("invoke:Blockstore.Put#0", 0) == nil
+//@   site[records_into_the_filter_just_read] call:AddTS : arg0 == res("call:Load#0", 0)
 //@ func (*bloomcache).PutMany
 //@   prop C02
 //@   arith int-assumed
 //@   requires b != nil
 //@   modifies all
 //@   site[records_each_block_of_the_batch] call:AddTS : arg1 == cidHash(blockCid(bl)) && res("invoke:Blockstore.PutMany#0", 0) == nil
+//@   site[filter_read_after_the_write] call:Load : called("invoke:Blockstore.PutMany#0") && res("invoke:Blockstore.PutMany#0", 0) == nil
+//@   site[records_into_the_filter_just_read] call:AddTS : arg0 == res("call:Load#0", 0)
 //@   loop 0 continue[no_block_skipped] called("call:AddTS#0")
 //@   site[stores_the_batch] invoke:Blockstore.PutMany : arg0 == b.blockstore && arg2 == bs
+
+// ---- C02: the batch handed to the inner store by the 2Q cache's PutMany --------------------------
+// keys[i] is the cache key of blocks[i]: sorting and dropping repeated keys must keep every key next
+// to its own block, or a block is recorded as stored (under the key of another one) without being written
+//@ spec batchKey(b blocks.Block) string
+//@ macro paired(b) = b != nil && len(b.keys) == len(b.blocks) && forall(i, 0, len(b.keys), b.keys[i] == batchKey(b.blocks[i]))
+//@ func (*keyedBlocks).isEmpty
+//@   inline
+//@ func (*keyedBlocks).Swap
+//@   prop C02
+//@   arith int-assumed
+//@   requires[paired] paired(b) && 0 <= i && i < len(b.keys) && 0 <= j && j < len(b.keys)
+//@   modifies elems(b.keys), elems(b.blocks)
+//@   ensures[still_paired] paired(b)
+// sort.Sort permutes through Swap (shown above to keep the pairing) and does nothing else to its argument
+//@ func ext sort.Sort
+//@   modifies elems(unbox(data, "*keyedBlocks").keys), elems(unbox(data, "*keyedBlocks").blocks)
+//@   ensures typeis(data, "*keyedBlocks") && old(paired(unbox(data, "*keyedBlocks"))) ==> paired(unbox(data, "*keyedBlocks"))
+//@   ensures typeis(data, "*keyedBlocks") ==> unbox(data, "*keyedBlocks").keys == old(unbox(data, "*keyedBlocks").keys) && unbox(data, "*keyedBlocks").blocks == old(unbox(data, "*keyedBlocks").blocks)
+//@ func (*keyedBlocks).sortAndDedup
+//@   prop C02
+//@   arith int-assumed
+//@   requires[paired] paired(b)
+//@   modifies heap
+//@   loop 0 invariant[bounds] 0 <= j && j < i && i <= len(b.keys) && len(b.keys) == len(b.blocks) && b.keys == old(b.keys) && b.blocks == old(b.blocks)
+//@   loop 0 invariant[kept_part_paired] forall(k, 0, j + 1, b.keys[k] == batchKey(b.blocks[k]))
+//@   loop 0 invariant[rest_still_paired] forall(k, i, len(b.keys), b.keys[k] == batchKey(b.blocks[k]))
+//@   ensures[still_paired] paired(b)
+//@   ensures[not_empty_stays_not_empty] old(len(b.keys)) > 0 ==> len(b.keys) > 0
+//@ func (*keyedBlocks).append
+//@   prop C02
+//@   arith int-assumed
+//@   requires[paired] paired(b) && key == batchKey(blk)
+//@   modifies heap
+//@   ensures[still_paired] paired(b) && len(b.keys) == old(len(b.keys)) + 1
+//@ func newKeyedBlocks
+//@   prop C02
+//@   arith int-assumed
+//@   requires cap >= 0
+//@   ensures[empty_batch] result != nil && fresh(result) && len(result.keys) == 0 && len(result.blocks) == 0
+// the per-key locks, the hit counters and the 2Q cache itself are not modelled
+//@ func (*tqcache).lock
+//@   assumed
+//@ func (*tqcache).unlock
+//@   assumed
+//@ func (*tqcache).queryCache
+//@   assumed
+//@ func (*tqcache).cacheSize
+//@   assumed
+//@ spec cacheKeyOf(k cid.Cid) string
+//@ func cacheKey
+//@   assumed
+//@   ensures result == cacheKeyOf(k)
+//@ axiom batch_key_def (b blocks.Block): batchKey(b) == cacheKeyOf(blockCid(b))
+//@ func (*tqcache).PutMany
+//@   prop C02
+//@   arith int-assumed
+//@   requires b != nil
+//@   modifies all
+//@   loop 0 invariant[batch_paired] paired(good)
+//@   loop 1 invariant[batch_paired] paired(good)
+//@   loop 2 invariant[batch_paired] paired(good)
+//@   site[inner_store_gets_the_paired_batch] invoke:Blockstore.PutMany : arg2 == good.blocks && paired(good)
+//@   site[size_recorded_under_the_blocks_own_key] call:cacheSize : arg1 == batchKey(good.blocks[i])
